@@ -10,6 +10,7 @@
 
 #include "myth_config.h"
 #include "myth_spinlock_func.h"
+#include "myth_verif.h"
 
 #if 0
 /* stuff needed for non-blocking version */
@@ -229,6 +230,7 @@ static inline myth_sleep_queue_item_t myth_sleep_stack_pop(myth_sleep_stack_t * 
   while (1) {
     myth_sleep_queue_item_t x = s->top;
     if (x == 0) return x;
+    MYTH_VERIF_POINT(SS_POP_BEFORE_CAS);
     if (__sync_bool_compare_and_swap(&s->top, x, x->next)) {
       return x;
     }
@@ -239,6 +241,7 @@ static inline long myth_sleep_stack_push(myth_sleep_stack_t * s, myth_sleep_queu
   while (1) {
     myth_sleep_queue_item_t t = s->top;
     x->next = t;
+    MYTH_VERIF_POINT(SS_PUSH_BEFORE_CAS);
     if (__sync_bool_compare_and_swap(&s->top, t, x)) {
       return 0;
     }
